@@ -542,7 +542,9 @@ class C16(PropBase):
     prefixes = ("out", "use", "q", "r")
     policies = ["af", "no"]
     rule = ("HistGen histories of appends/truncations/deletions of any sizes (batches, empty payloads, multi-file payloads), "
-            "ending with a truncation of every queue to its last position; non-trivial/distinct as for C01")
+            "ending with a truncation of every queue to its last position; aimed profiles: a long queue with small head truncations; a recovery that loses a "
+            "DeleteQueue / Truncate entry to CRC-detected damage and then replays a later position record of the same queue (in-place reset of a non-empty queue); "
+            "non-trivial/distinct as for C01")
     oracle_text = ("after every call: memory_used_bytes == sum over queues of (name bytes + retained payload bytes + K*records) with "
                    "K = size_of::<RecordMeta>() read from the crate at run time; used <= allocated; names-only once every queue is empty")
 
@@ -560,6 +562,25 @@ class C16(PropBase):
             cmds.append("truncate =long %d" % (n - 1))
             self.stats["long_queue_profile"] = self.stats.get("long_queue_profile", 0) + 1
             return cmds
+        if i % 12 == 7:
+            # recovery that loses a DeleteQueue (or Truncate) entry to CRC-detected damage and then meets a
+            # later position record of the same queue: replay resets a NON-EMPTY queue in place; the accounting
+            # must follow.  Fresh directory: create x = 19 bytes, the append entry = 7 + 12 + sum(12 + len),
+            # then the 19-byte delete / truncate entry whose payload we damage.
+            lens = [rng.choice([0, 10, 1000, 3000]) for _ in range(rng.randrange(1, 5))]
+            cmds = ["open af", "create =x", "append =x - " + " ".join("%d:%d" % (l, 40 + k) for k, l in enumerate(lens))]
+            off = 19 + 7 + 12 + sum(12 + l for l in lens)
+            kill = rng.choice(["delete =x", "delete =x", "truncate =x %d" % (len(lens) - 1)])
+            cmds.append(kill)
+            if kill.startswith("delete"):
+                cmds.append("create =x")
+            else:
+                cmds += ["create =other", "append =other - 5:9"]
+            cmds.append("append =x - 10:60")
+            cmds += ["drop", "damage 0 %d x%02x" % (off + 7 + rng.randrange(0, 12), rng.randrange(1, 256)), "open af"]
+            cmds += ["append =x - 7:61", "truncate =x 99"]
+            self.stats["lost_delete_profile"] = self.stats.get("lost_delete_profile", 0) + 1
+            return cmds
         g = HistGen(rng, policy=rng.choice(self.policies))
         g.run(rng.randrange(8, 40), weights={"create": 8, "delete": 5, "append": 52, "truncate": 28, "persist": 1, "restart": 3})
         for tok, q in list(g.ref.q.items()):
@@ -569,22 +590,36 @@ class C16(PropBase):
         self.merge_stats(g.stats)
         return g.cmds
 
+    @staticmethod
+    def obs_name_len(key):
+        return int(key[1:].split(":")[0]) if key.startswith("L") else len(key[1:]) // 2
+
     def oracle(self, cid, cmds, tr):
         vs = []
         K = 24
         ref = RefMap()
+        damaged = False
         for i, cmd in enumerate(cmds):
             if i >= len(tr):
                 break
             toks = split_cmd(cmd)
             apply_ref(ref, toks)
+            if toks and toks[0] in ("damage", "crash", "powerloss", "truncfile", "rmfile", "cpfile"):
+                damaged = True
             c = tr[i]
             u = use_of(c)
             if u is None:
                 continue
-            names = sum(len(name_bytes(t)) for t in ref.q)
-            payload = sum(payload_len(t) for q in ref.q.values() for _, t in q.recs)
-            nrec = sum(len(q.recs) for q in ref.q.values())
+            if damaged:
+                # what was recovered is judged elsewhere (C08/C09/C10); here: the accounting of whatever is retained
+                o = obs_of(c)
+                names = sum(self.obs_name_len(k) for k in o)
+                payload = sum(r[1] for v in o.values() for r in v["recs"])
+                nrec = sum(len(v["recs"]) for v in o.values())
+            else:
+                names = sum(len(name_bytes(t)) for t in ref.q)
+                payload = sum(payload_len(t) for q in ref.q.values() for _, t in q.recs)
+                nrec = sum(len(q.recs) for q in ref.q.values())
             want = names + payload + K * nrec
             if int(u["mem"]) != want:
                 vs.append({"msg": "cmd %d `%s`: memory_used_bytes=%s, retained data says %d (names %d + payload %d + %d*%d)" % (
